@@ -1,4 +1,4 @@
-\* U1c: life cycle, 3 uploads x 2 messages x 1 topic x 1 user x 2 GC runs, exhaustively.
+\* U1c: life cycle, exhaustively: 3 uploads x 2 messages x 1 topic x 1 user, any number of GC runs.
 CONSTANTS
   MaxUp = 3
   MaxMsg = 2
